@@ -49,6 +49,9 @@ TWrite    == Is("w")        /\ Write(Ev.t, Ev.n, Ev.k, Ev.o, Ev.v)
 TDelete   == Is("del")      /\ Delete(Ev.t, Ev.o) /\ txn[Ev.t].setup /\ Ev.o \in txn[Ev.t].sel
 \* DeleteAt refuses exactly the offsets that are not in the transaction's selection
 TDelMiss  == Is("delmiss")  /\ UNCHANGED vars /\ txn[Ev.t].pc = "body" /\ txn[Ev.t].setup /\ Ev.o \notin txn[Ev.t].sel
+TKDelete  == Is("kdel")     /\ Delete(Ev.t, Ev.o)      \* DeleteKey does not consult the selection
+TKeyCheck == Is("kchk")     /\ KeyCheck(Ev.t, Ev.fn, Ev.k, Ev.found, Ev.o)
+TKeyEnd   == Is("kend")     /\ KeyEnd(Ev.t, Ev.err)
 TRollback == Is("rollback") /\ Rollback(Ev.t)
 TCommitStart == Is("commitstart") /\ CommitStart(Ev.t)
 
@@ -145,7 +148,7 @@ Diag == IF Ev.e = "dump" THEN DumpDiag ELSE IF Ev.e = "apply" THEN ApplyDiag ELS
 
 TNext == \/ TReset \/ TCreateCol \/ TCreateIdx \/ TDropIdx \/ TCreateSort \/ TCreateTrig \/ TDropTrig \/ TTransport
          \/ TBulkIns \/ TBulkDel \/ TBulkReplay
-         \/ TBegin \/ TSel \/ TReserve \/ TInsFail \/ TWrite \/ TDelete \/ TDelMiss \/ TRollback \/ TCommitStart
+         \/ TBegin \/ TSel \/ TReserve \/ TInsFail \/ TWrite \/ TDelete \/ TDelMiss \/ TKDelete \/ TKeyCheck \/ TKeyEnd \/ TRollback \/ TCommitStart
          \/ TApply \/ TAfter \/ TReplay \/ TRead \/ TDump
 TSpec == TInit /\ [][TNext]_tvars
 
